@@ -1,6 +1,7 @@
 import TacklerModel.Model.Group
 import TacklerModel.Lemmas.ChunkBy
 import TacklerModel.Lemmas.Time
+import TacklerModel.Lemmas.Period
 import TacklerModel.Lemmas.Order
 import TacklerModel.Props.C02
 /-!
@@ -440,6 +441,295 @@ theorem group_total_rows (st : Settings) (sel : BalRow → Bool) (key : Txn → 
     rw [(candidates_spec key txns).filter kg hkg]
     exact members_wf key txns hwf kg.1
   exact forall₂_sum st sel k hsel _ _ hall hcs
+
+/-! ### the report: key of `get_group_by_op`, zone given as a fixed offset or as a table -/
+
+/-- `balanceGroups` is `balanceGroupsBy` with the period key of the report zone (inside the model's domain: every
+    instant inside the window of a zone table), so all the theorems above apply to the report for all five group-by
+    settings and every zone -/
+theorem balanceGroups_ok (st : Settings) (sel : BalRow → Bool) (g : GroupBy) (tz : Time.JournalTz) (txns : List Txn)
+    (gs : List BalGroup) (h : balanceGroups st sel g tz txns = .ok gs) :
+    zoneCovers tz txns = true ∧ balanceGroupsBy st sel (groupKey g tz) txns = .ok gs := by
+  unfold balanceGroups at h
+  split at h
+  · exact ⟨by assumption, h⟩
+  · cases h
+
+/-- the titles of the report are strictly ascending, each period once — for every group-by setting and **every**
+    report zone, monotone or not -/
+theorem report_keys (st : Settings) (sel : BalRow → Bool) (g : GroupBy) (tz : Time.JournalTz) (txns : List Txn)
+    (gs : List BalGroup) (h : balanceGroups st sel g tz txns = .ok gs) : (gs.map (·.title)).Pairwise (· < ·) :=
+  group_keys st sel _ txns gs (balanceGroups_ok st sel g tz txns gs h).2
+
+open Time in
+/-- what a period text is, as a specification: `loc` is the local time (instant + offset, in ns); it falls on the
+    local day number `days`; `(y, m, d)` is the civil date of that day (unique: `Time.daysFromCivil_inj`) and
+    `(wy, w, wd)` its ISO week date — the day is the `wd`-th day of the `w`-th week counted from the Monday of the
+    week that contains January 4th of `wy`, and lies before that Monday of `wy + 1` —; the text is
+    `YYYY`, `YYYY-MM`, `YYYY-MM-DD`, `Y-Www` or `Y-Www-D` of those numbers. -/
+def PeriodSpec (g : GroupBy) (loc : Int) (text : String) : Prop :=
+  ∃ (days y : Int) (m d : Nat) (wy w wd : Int),
+    (days * 86400000000000 ≤ loc ∧ loc < (days + 1) * 86400000000000) ∧
+    (1 ≤ m ∧ m ≤ 12) ∧ (1 ≤ d ∧ d ≤ daysInMonth y m) ∧ daysFromCivil y m d = days ∧
+    (1 ≤ w ∧ w ≤ 53) ∧ (1 ≤ wd ∧ wd ≤ 7) ∧ days = isoWeekStart wy + (w - 1) * 7 + (wd - 1) ∧
+    days < isoWeekStart (wy + 1) ∧
+    text = String.ofList (match g with
+      | .year => yearText y
+      | .month => yearText y ++ ['-'] ++ padNat 2 m
+      | .date => yearText y ++ ['-'] ++ padNat 2 m ++ ['-'] ++ padNat 2 d
+      | .isoWeek => intText wy ++ ['-', 'W'] ++ padNat 2 w.toNat
+      | .isoWeekDate => intText wy ++ ['-', 'W'] ++ padNat 2 w.toNat ++ ['-'] ++ intText wd)
+
+open Time in
+theorem periodText_spec (g : GroupBy) (ns off : Int) : PeriodSpec g (ns + off * 1000000000) (periodText g ns off) := by
+  have hl := localDays_spec ns off
+  have hr := days_roundtrip (localDays ns off)
+  have hi := isoOf_spec (localDays ns off)
+  refine ⟨localDays ns off, (civilFromDays (localDays ns off)).1, (civilFromDays (localDays ns off)).2.1,
+    (civilFromDays (localDays ns off)).2.2, (isoOf (localDays ns off)).1, (isoOf (localDays ns off)).2.1,
+    (isoOf (localDays ns off)).2.2, hl, ⟨hr.2.1, hr.2.2.1⟩, ⟨hr.2.2.2.1, hr.2.2.2.2⟩, hr.1, ⟨hi.1, hi.2.1⟩,
+    ⟨hi.2.2.1, hi.2.2.2.1⟩, hi.2.2.2.2.1, hi.2.2.2.2.2, ?_⟩
+  rw [periodText_eq]
+  cases g <;> rfl
+
+/-- **key_is_period** (fixed offsets, proved in full): the group key of a transaction is the period text of its
+    instant's civil date at the report zone's offset. -/
+theorem key_is_period (g : GroupBy) (off : Int) (t : Txn) :
+    PeriodSpec g (t.header.ts.ns + off * 1000000000) (groupKey g (.fixed off) t) :=
+  periodText_spec g _ off
+
+/-- **key_is_period** for a named zone — `_partial`: the zone is *data* (a transition table exported from jiff per
+    run), so the statement is relative to the table's content: if inside its window the table agrees with the
+    zone's offset function `zoneOffset` (the tz database as jiff reads it, incl. its lookup by truncated second, F22),
+    the key is the period text of the instant's civil date at the zone's offset at that instant.
+    Full statement: the same with `zoneOffset` = the IANA rules of the zone; missing: a model of the tz database. -/
+theorem key_is_period_table_partial (g : GroupBy) (z : Time.ZoneTable) (zoneOffset : Int → Int)
+    (hdata : ∀ ns, Time.inWindow z ns = true → Time.offsetAt z ns = zoneOffset ns)
+    (t : Txn) (hin : Time.inWindow z t.header.ts.ns = true) :
+    PeriodSpec g (t.header.ts.ns + zoneOffset t.header.ts.ns * 1000000000) (groupKey g (.table z) t) := by
+  have := periodText_spec g t.header.ts.ns (Time.offsetAt z t.header.ts.ns)
+  rw [hdata _ hin] at this
+  simpa [groupKey, reportOffset, hdata _ hin] using this
+
+/-- what the table lookup computes: the offset of the last listed transition at or before the (truncated) instant,
+    the initial offset when there is none -/
+theorem offsetAtFrom_spec (cur : Int) (trans : List (Int × Int)) (x : Int)
+    (hasc : (trans.map (·.1)).Pairwise (· < ·)) :
+    Time.offsetAtFrom cur trans x = (((trans.filter (fun e => decide (e.1 ≤ x))).map (·.2)).getLast?).getD cur := by
+  induction trans generalizing cur with
+  | nil => rfl
+  | cons e rest ih =>
+    obtain ⟨t, o⟩ := e
+    simp only [List.map_cons, List.pairwise_cons] at hasc
+    simp only [Time.offsetAtFrom]
+    split
+    · rename_i hlt
+      have hnone : (((t, o) :: rest).filter (fun e => decide (e.1 ≤ x))) = [] := by
+        rw [List.filter_eq_nil_iff]
+        intro e he
+        simp only [decide_eq_true_eq]
+        rcases List.mem_cons.mp he with rfl | he'
+        · simp only; omega
+        · have := hasc.1 e.1 (List.mem_map.mpr ⟨e, he', rfl⟩); omega
+      rw [hnone]; rfl
+    · rename_i hge
+      rw [ih o hasc.2]
+      have : decide (t ≤ x) = true := by simp; omega
+      simp only [List.filter_cons, this, if_true, List.map_cons]
+      cases hf : (rest.filter (fun e => decide (e.1 ≤ x))).map (·.2) with
+      | nil => simp
+      | cons a l => simp [List.getLast?_cons]
+
+/-! ### at a fixed offset nothing changes: consecutive grouping = grouping by key -/
+
+/-- transactions in load order are ordered by instant -/
+theorem sorted_by_instant (xs : List Txn) :
+    (sortTxns xs).Pairwise (fun a b => a.header.ts.ns ≤ b.header.ts.ns) := by
+  apply (sortTxns_sorted xs).imp
+  intro a b hab
+  simp only [txnLe, hdrLe, hdrKey] at hab
+  apply Classical.byContradiction
+  intro hlt
+  have h1 : ¬ a.header.ts.ns < b.header.ts.ns := by omega
+  have h2 : b.header.ts.ns < a.header.ts.ns := by omega
+  simp [h1, h2] at hab
+
+/-- at a fixed offset the key of a transaction is the period text of its local day number -/
+theorem groupKey_fixed (g : GroupBy) (off : Int) (t : Txn) :
+    groupKey g (.fixed off) t = Time.ptext g (Time.localDays t.header.ts.ns off) :=
+  Time.periodText_eq g _ off
+
+/-- **equal keys are contiguous at a fixed offset** (`localDays_mono`): along transactions ordered by instant the
+    local day number never decreases, hence the period never goes back, hence `chunk_by` on the instant-ordered list
+    already yields every period once — the assumption of the code before the fix of F12 holds for fixed offsets. -/
+theorem fixed_offset_contiguous (g : GroupBy) (off : Int) (txns : List Txn)
+    (hs : txns.Pairwise (fun a b => a.header.ts.ns ≤ b.header.ts.ns)) :
+    ((chunkBy (groupKey g (.fixed off)) txns).map (·.1)).Nodup := by
+  -- `S k₁ k₂`: `k₁`, `k₂` are period texts of days in periods that follow each other
+  let S : String → String → Prop := fun k₁ k₂ =>
+    ∃ z₁ z₂, Time.ptext g z₁ = k₁ ∧ Time.ptext g z₂ = k₂ ∧ Time.pcode g z₁ < Time.pcode g z₂
+  have htr : ∀ a b c, S a b → S b c → S a c := by
+    rintro a b c ⟨z₁, z₂, h1, h2, h3⟩ ⟨z₂', z₃, h4, h5, h6⟩
+    have := Time.ptext_inj g z₂ z₂' (h2.trans h4.symm)
+    exact ⟨z₁, z₃, h1, h5, by omega⟩
+  have hirr : ∀ a, ¬ S a a := by
+    rintro a ⟨z₁, z₂, h1, h2, h3⟩
+    have := Time.ptext_inj g z₁ z₂ (h1.trans h2.symm)
+    omega
+  have hpw : txns.Pairwise (fun a b => groupKey g (.fixed off) a = groupKey g (.fixed off) b ∨
+      S (groupKey g (.fixed off) a) (groupKey g (.fixed off) b)) := by
+    apply hs.imp
+    intro a b hab
+    have hd := Time.localDays_mono _ _ off hab
+    have hc := Time.pcode_mono g _ _ hd
+    rw [groupKey_fixed, groupKey_fixed]
+    rcases Int.lt_or_eq_of_le hc with hlt | heq
+    · exact .inr ⟨_, _, rfl, rfl, hlt⟩
+    · exact .inl (Time.ptext_of_pcode g _ _ heq)
+  have := chunkBy_strict (groupKey g (.fixed off)) S htr txns hpw
+  exact this.imp (fun {a b} hab e => by subst e; exact hirr _ hab)
+
+/-- the balance of one candidate (an empty balance where `from_iter` does not answer) -/
+def balOf (st : Settings) (sel : BalRow → Bool) (kg : String × List Txn) : BalGroup :=
+  ⟨kg.1, match fromIter st sel (postsOf kg.2) with
+    | .ok b => b
+    | _ => ⟨[], []⟩⟩
+
+/-- `groupBalances` answers iff `from_iter` answers for every candidate, and then it is the element-wise map -/
+theorem groupBalances_ok_iff (st : Settings) (sel : BalRow → Bool) (cs : List (String × List Txn))
+    (bs : List BalGroup) :
+    groupBalances st sel cs = .ok bs ↔
+      (∀ kg ∈ cs, ∃ b, fromIter st sel (postsOf kg.2) = .ok b) ∧ bs = cs.map (balOf st sel) := by
+  induction cs generalizing bs with
+  | nil => simp [groupBalances, eq_comm]
+  | cons c rest ih =>
+    obtain ⟨k, g⟩ := c
+    simp only [groupBalances, List.mem_cons, forall_eq_or_imp, List.map_cons]
+    cases hf : fromIter st sel (postsOf g) with
+    | err => simp
+    | undef => simp
+    | ok b =>
+      simp only [balOf, hf]
+      cases hr : groupBalances st sel rest with
+      | err =>
+        have := (ih (rest.map (balOf st sel)))
+        rw [hr] at this
+        simp only [reduceCtorEq, false_iff, not_and] at this ⊢
+        intro ⟨_, hall⟩ _
+        exact this hall trivial
+      | undef =>
+        have := (ih (rest.map (balOf st sel)))
+        rw [hr] at this
+        simp only [reduceCtorEq, false_iff, not_and] at this ⊢
+        intro ⟨_, hall⟩ _
+        exact this hall trivial
+      | ok r =>
+        obtain ⟨hall, hmap⟩ := (ih r).mp hr
+        simp only [Outcome.ok.injEq]
+        constructor
+        · intro e; subst e
+          exact ⟨⟨⟨b, rfl⟩, hall⟩, by rw [hmap]⟩
+        · intro ⟨_, e⟩
+          rw [e, hmap]
+
+theorem le_title_trans (a b c : BalGroup) (h1 : (!decide (b.title < a.title)) = true)
+    (h2 : (!decide (c.title < b.title)) = true) : (!decide (c.title < a.title)) = true := by
+  simp only [Bool.not_eq_true', decide_eq_false_iff_not] at *; grind
+
+theorem le_title_total (a b : BalGroup) :
+    ((!decide (b.title < a.title)) || (!decide (a.title < b.title))) = true := by
+  simp only [Bool.or_eq_true, Bool.not_eq_true', decide_eq_false_iff_not]; grind
+
+/-- **consecutive grouping = grouping by key when equal keys are contiguous**: if `chunk_by` on the list as it is
+    yields no key twice, the code before the fix of F12 (consecutive runs, then a stable sort by title) and the code
+    after it (stable sort by key, then runs) print the same groups. -/
+theorem consecutive_eq_of_contiguous (st : Settings) (sel : BalRow → Bool) (key : Txn → String) (txns : List Txn)
+    (hnd : ((chunkBy key txns).map (·.1)).Nodup) (gs : List BalGroup) :
+    balanceGroupsConsecutive st sel key txns = .ok gs ↔ balanceGroupsBy st sel key txns = .ok gs := by
+  have hs := candidates_spec key txns
+  have hnd1 : ((groupCandidates key txns).map (·.1)).Nodup := strict_nodup hs.strict
+  -- both candidate lists hold, for every key that occurs, the transactions of that key
+  have hmem : ∀ x, x ∈ groupCandidates key txns ↔ x ∈ chunkBy key txns := by
+    intro x
+    constructor
+    · intro hx
+      obtain ⟨t, ht, htk⟩ := chunk_key_mem key _ x hx
+      have ht' : t ∈ txns := (List.mergeSort_perm txns _).mem_iff.mp ht
+      obtain ⟨g', hg', _⟩ := mem_chunk key txns t ht'
+      have e1 := chunk_eq_filter key txns hnd _ hg'
+      have e2 := hs.filter x hx
+      simp only at e1
+      have : x = (key t, g') := by
+        apply Prod.ext
+        · exact htk.symm
+        · simp only; rw [e1, e2, htk]
+      rw [this]; exact hg'
+    · intro hx
+      obtain ⟨t, ht, htk⟩ := chunk_key_mem key _ x hx
+      have ht' : t ∈ txns.mergeSort (keyLeS key) := (List.mergeSort_perm txns _).mem_iff.mpr ht
+      obtain ⟨g', hg', _⟩ := mem_chunk key _ t ht'
+      have e1 := hs.filter _ hg'
+      have e2 := chunk_eq_filter key txns hnd x hx
+      simp only at e1
+      have : x = (key t, g') := by
+        apply Prod.ext
+        · exact htk.symm
+        · simp only; rw [e1, e2, htk]
+      rw [this]; exact hg'
+  have hperm : (groupCandidates key txns).Perm (chunkBy key txns) :=
+    (List.perm_ext_iff_of_nodup (C02.nodup_of_nodup_map _ hnd1) (C02.nodup_of_nodup_map _ hnd)).mpr hmem
+  unfold balanceGroupsConsecutive balanceGroupsBy
+  rw [Outcome.map_ok, Outcome.map_ok]
+  -- the answers for all candidates: element-wise, so a permutation of each other
+  have hall : (∀ kg ∈ chunkBy key txns, ∃ b, fromIter st sel (postsOf kg.2) = .ok b) ↔
+      (∀ kg ∈ groupCandidates key txns, ∃ b, fromIter st sel (postsOf kg.2) = .ok b) :=
+    ⟨fun h kg hkg => h kg ((hmem kg).mp hkg), fun h kg hkg => h kg ((hmem kg).mpr hkg)⟩
+  have hfinal : ((chunkBy key txns).map (balOf st sel) |>.filter (fun g => !g.isEmpty)).mergeSort
+        (fun a b => !decide (b.title < a.title))
+      = ((groupCandidates key txns).map (balOf st sel)).filter (fun g => !g.isEmpty) := by
+    apply sorted_perm_eq (fun a b : BalGroup => (!decide (b.title < a.title)) = true)
+    · exact (List.mergeSort_perm _ _).trans (((hperm.symm.map _).filter _))
+    · exact List.pairwise_mergeSort le_title_trans le_title_total _
+    · have : ((groupCandidates key txns).map (balOf st sel)).Pairwise (fun a b => a.title < b.title) := by
+        rw [List.pairwise_map]
+        have := hs.strict
+        rw [List.pairwise_map] at this
+        exact this
+      apply (this.sublist List.filter_sublist).imp
+      intro a b hab
+      simp only [Bool.not_eq_true', decide_eq_false_iff_not]; grind
+    · intro a b ha hb h1 h2
+      have ha' := (List.mem_filter.mp ((List.mergeSort_perm _ _).mem_iff.mp ha)).1
+      have hb' := (List.mem_filter.mp ((List.mergeSort_perm _ _).mem_iff.mp hb)).1
+      have ht : a.title = b.title := by
+        simp only [Bool.not_eq_true', decide_eq_false_iff_not] at h1 h2; grind
+      have hndt : (((chunkBy key txns).map (balOf st sel)).map (·.title)).Nodup := by
+        rw [List.map_map]; exact hnd
+      exact C02.eq_of_nodup_map (·.title) hndt ha' hb' ht
+  constructor
+  · rintro ⟨bs, hbs, rfl⟩
+    obtain ⟨h1, rfl⟩ := (groupBalances_ok_iff st sel _ bs).mp hbs
+    exact ⟨_, (groupBalances_ok_iff st sel _ _).mpr ⟨hall.mp h1, rfl⟩, hfinal.symm⟩
+  · rintro ⟨bs, hbs, rfl⟩
+    obtain ⟨h1, rfl⟩ := (groupBalances_ok_iff st sel _ bs).mp hbs
+    exact ⟨_, (groupBalances_ok_iff st sel _ _).mpr ⟨hall.mpr h1, rfl⟩, hfinal⟩
+
+/-- **fixed_offset_unchanged**: for a fixed-offset report zone and transactions in instant order (`sortTxns`: what
+    the loader hands to the reports) the fix of F12 changes nothing — the report of the code that grouped
+    consecutive equal keys and the report of the code that groups by key are the same, for all five group-by
+    settings. -/
+theorem fixed_offset_unchanged (st : Settings) (sel : BalRow → Bool) (g : GroupBy) (off : Int) (txns : List Txn)
+    (hs : txns.Pairwise (fun a b => a.header.ts.ns ≤ b.header.ts.ns)) (gs : List BalGroup) :
+    balanceGroupsConsecutive st sel (groupKey g (.fixed off)) txns = .ok gs ↔
+      balanceGroups st sel g (.fixed off) txns = .ok gs := by
+  rw [consecutive_eq_of_contiguous st sel _ txns (fixed_offset_contiguous g off txns hs) gs]
+  simp [balanceGroups, zoneCovers]
+
+theorem fixed_offset_unchanged_loaded (st : Settings) (sel : BalRow → Bool) (g : GroupBy) (off : Int)
+    (xs : List Txn) (gs : List BalGroup) :
+    balanceGroupsConsecutive st sel (groupKey g (.fixed off)) (sortTxns xs) = .ok gs ↔
+      balanceGroups st sel g (.fixed off) (sortTxns xs) = .ok gs :=
+  fixed_offset_unchanged st sel g off _ (sorted_by_instant xs) gs
 
 end C13
 end Tackler
